@@ -1204,7 +1204,9 @@ class ColangParser:
                 utterance_id = None
 
                 # re_params_at_end = r'^.* ((?:with|for) (?:,?\s*\$?[\w.]+\s*(?:=\s*(?:"[^"]*"|\$[\w.]+|[-\d.]+))?)*)$'
-                re_param_def = r'\$?[\w.]+\s*(?:=\s*(?:"[^"]*"|\$[\w.]+|[-\d.]+))?'
+                # (the blank before a comma belongs to the separator only, otherwise the number
+                # of ways to match a list of parameters doubles with every parameter)
+                re_param_def = r'\$?[\w.]+(?:\s*=\s*(?:"[^"]*"|\$[\w.]+|[-\d.]+))?'
                 re_first_param_def_without_marker = (
                     r'\$?[\w.]+\s*=\s*(?:"[^"]*"|\$[\w.]+|[-\d.]+)'
                 )
